@@ -805,3 +805,34 @@ PANIC_MODELS = [
     (R(r'<(str|String|\[.*\]|Vec) as Index(Mut)?>::index(_mut)?$|str::split_at$|slice::split_at$'), m_str_index),
 ]
 GLOBAL_MODELS = GLOBAL_MODELS + PANIC_MODELS
+
+
+# ----------------------------------------------------------------------------- integer ranges as iterators
+def m_range_next(ex, p, call, k):
+    ptr = call.args[0]
+    r = ex.deref(p, ptr)
+    if not (isinstance(r, Agg) and r.name == 'Range' and len(r.fields) == 2 and all(isinstance(x, z3.ExprRef) and z3.is_bv(x) for x in r.fields)):
+        return NotImplemented
+    a, b = r.fields
+    lt = z3.ULT(a, b)
+    q = p.clone()
+    if ex.feasible(p.pc, lt):
+        if not z3.is_true(z3.simplify(lt)):
+            p.pc.append(lt)
+        ex.store(p, ptr, Agg('Range', None, (z3.simplify(a + 1), b), r.kind, r.fnames))
+        k(p, some(a))
+    if ex.feasible(q.pc, z3.Not(lt)):
+        if not z3.is_false(z3.simplify(lt)):
+            q.pc.append(z3.Not(lt))
+        k(q, NONE)
+
+
+def m_range_into_iter(ex, p, call, k):
+    v = call.args[0]
+    if isinstance(v, Agg) and v.name == 'Range':
+        return k(p, v)
+    return NotImplemented
+
+
+GLOBAL_MODELS = [(R(r'<(std::ops::|core::ops::)?Range as Iterator>::next$'), m_range_next),
+                 (R(r'<(std::ops::|core::ops::)?Range as IntoIterator>::into_iter$'), m_range_into_iter)] + GLOBAL_MODELS
